@@ -17,7 +17,7 @@ DEATH = {"panic", "abort", "hang"}
 # clauses that compare wall-clock times: reported only if they reproduce
 TIMING = {"late_join", "stop_slow"}
 DEVS = ["silent_cancel_drop", "join_no_recheck", "cancel_skip_unsettled", "stop_timeout_ok", "keepalive_precedence",
-        "drop_undoes_cancel", "abandoned_stays_running", "count_before_create", "timeout_without_last_look"]
+        "drop_undoes_cancel", "abandoned_stays_running", "count_before_create", "timeout_without_last_look", "suspended_looks_on_cpu"]
 
 
 def cfg(nt, nw, mx, mn, ms, ops, waiters, view):
@@ -103,6 +103,18 @@ def seeded(rng, pid):
                 {"a": "body", "t": 1, "step": "finish"}, {"a": "pass"}, {"a": "pass"}]
         return {"nt": 1, "max": 1, "min": 0, "hist": hist, "outcomes": {"1": outcome}, "prios": {}, "order": False,
                 "src": "deadline-in-the-notify-window"}
+    if pid == "C13" and rng.random() < 0.2:
+        # a task that is on the CPU asks for the cancellation of another task that has started and is suspended
+        # (CoPool!CancelFromTask): the caller and every other task must go on undisturbed
+        nt = rng.choice([2, 3])
+        hist = [{"a": "submit", "t": 1}, {"a": "body", "t": 1, "step": "long_delay"}, {"a": "body", "t": 1, "step": "finish"},
+                {"a": "submit", "t": 2}, {"a": "body", "t": 2, "step": "cancel_task", "target": 1},
+                {"a": "body", "t": 2, "step": rng.choice(["suspend", "delay"])}, {"a": "body", "t": 2, "step": "finish"}]
+        if nt == 3:
+            hist += [{"a": "submit", "t": 3}, {"a": "body", "t": 3, "step": "suspend"}, {"a": "body", "t": 3, "step": "finish"}]
+        hist += [{"a": "wait", "t": 2, "ms": 300}, {"a": "pass"}, {"a": "pass"}, {"a": "tick"}, {"a": "pass"}]
+        return {"nt": nt, "max": rng.choice([2, 4]), "min": 0, "hist": hist, "outcomes": {str(t): "ok" for t in range(1, nt + 1)}, "prios": {},
+                "order": False, "src": "cancel-suspended-from-running-task"}
     if pid == "C11" and rng.random() < 0.25:
         # a positive keep-alive time (CoPool.tla, KeepAlive = TRUE): several workers are created (every task yields
         # once), the work completes, and the pool is stopped long before the workers' keep-alive time has passed.
